@@ -36,6 +36,26 @@ fn codec_job(seed: u64, j: usize, tier: Tier) -> Outcome {
     let (s6, d6) = match j % pairs {
         0 => (Ipv6Addr::UNSPECIFIED, Ipv6Addr::UNSPECIFIED),
         1 => (Ipv6Addr::from([0xff; 16]), Ipv6Addr::from([0xff; 16])),
+        // addresses whose eight words sum to k * 0x10000 + (0x10000 - d): folding the carries once
+        // carries again (n words of 0xffff and one word w with 1 <= w < n), e.g. fe80::ffff:ffff:ffff:180
+        k @ 3..=8 => {
+            let n = 2 + (k - 3) % 6; // 2..=7 words of 0xffff
+            let mk = |r: &mut Prng| {
+                let w = 1 + r.below(n as u64 - 1) as u16;
+                let mut words = [0u16; 8];
+                for x in words.iter_mut().take(n) {
+                    *x = 0xffff;
+                }
+                words[n] = w;
+                // any arrangement of the words has the same sum
+                let rot = r.below(8) as usize;
+                words.rotate_left(rot);
+                Ipv6Addr::from(words)
+            };
+            let a = mk(&mut r);
+            let b = if k % 2 == 0 { mk(&mut r) } else { "fe80::ffff:ffff:ffff:180".parse().unwrap() };
+            (a, b)
+        }
         _ => {
             let mut a = [0u8; 16];
             let mut b = [0u8; 16];
